@@ -382,7 +382,9 @@ pub fn run(ctx: &Ctx) {
         }
     }
     // ---- (iii) freed heap inside constant-time multiscalar multiplication and batch inversion
-    let sizes: Vec<usize> = if quick { vec![0, 1, 2, 3, 4, 5, 8, 17] } else { vec![0, 1, 2, 3, 4, 5, 6, 7, 8, 33, 64] };
+    // (190, 500, 800: the sizes at which the *variable-time* front end changes algorithm; the constant-time one must
+    // keep using the code that wipes its buffers)
+    let sizes: Vec<usize> = if quick { vec![0, 1, 2, 3, 4, 5, 8, 17, 190] } else { vec![0, 1, 2, 3, 4, 5, 6, 7, 8, 33, 64, 189, 190, 500, 800] };
     ctx.bound("multiscalar_sizes", json!(sizes));
     let pool: Vec<U> = {
         let lm = l();
@@ -401,7 +403,17 @@ pub fn run(ctx: &Ctx) {
             let rp = crate::props::c06::rpool(3);
             (0..n).map(|i| rp[i % rp.len()].real).collect()
         };
+        // the large sizes are there for the algorithm switch only: two call shapes, three secret vectors, and the
+        // per-scalar search restricted to the first few scalars (the differential comparison covers all of them)
+        let big = n >= 100;
+        if big {
+            vecs.truncate(2);
+            vecs.push((0..n).map(|i| pool[(i * 2 + 1) % pool.len()]).collect());
+        }
         for shape in 0..8u8 {
+        if big && shape != 0 && shape != 2 {
+            continue;
+        }
         let shape_name = ["EdwardsPoint::multiscalar_mul(&scalars)", "EdwardsPoint::multiscalar_mul(scalars by value)", "RistrettoPoint::multiscalar_mul(&scalars)", "RistrettoPoint::multiscalar_mul(scalars by value)",
             "EdwardsPoint::multiscalar_mul(iterators with an inexact size hint)", "RistrettoPoint::multiscalar_mul(iterators with an inexact size hint)",
             "EdwardsPoint::multiscalar_mul(points iterator panics on its last item)", "RistrettoPoint::multiscalar_mul(points iterator panics on its last item)"][shape as usize];
@@ -445,7 +457,7 @@ pub fn run(ctx: &Ctx) {
                     std::hint::black_box(res);
                     blocks_seen += log.len() as u64;
                     // no freed block may contain the radix-16 digit string or the bytes of any scalar
-                    for (i, s) in scalars.iter().enumerate() {
+                    for (i, s) in scalars.iter().enumerate().take(if big { 3 } else { usize::MAX }) {
                         let digits: Vec<u8> = curve25519_dalek::verif::as_radix_16(s).iter().map(|d| *d as u8).collect();
                         let naf: Vec<u8> = curve25519_dalek::verif::non_adjacent_form(s, 5).iter().map(|d| *d as u8).collect();
                         if let Some((bi, off)) = find_leak(&log, &digits, 16).or_else(|| find_leak(&log, s.as_bytes(), 8)).or_else(|| find_leak(&log, &naf[..64], 32)) {
